@@ -539,9 +539,12 @@ def read_config_independence(repo, col):
     probed = set()
     unresolved = False
     for h in helper_closure(fn):
-        for st in stmts_of(h.node):
-            if not isinstance(st, ast.For):
-                continue
+        loops_ = [st for st in stmts_of(h.node) if isinstance(st, ast.For)]
+        loops_ += [g for x in ast.walk(h.node)
+                   if isinstance(x, (ast.ListComp, ast.GeneratorExp,
+                                     ast.SetComp, ast.DictComp))
+                   for g in x.generators]
+        for st in loops_:
             it = st.iter
             if isinstance(it, ast.Name) and \
                     h.module.const(it.id) is not None:
